@@ -222,10 +222,13 @@ def composed_fallback(rec, S, assume, full_claim, one):
 
     def replay(vals):
         r = one(vals)
-        if r is not None or rec.replay_target is not None or not isinstance(full_claim, z3.ExprRef):
+        if r is not None or rec.replay_target is not None or full_claim is None:
             return r
         try:
-            r0, mdl = rec._check(list(assume) + [z3.Not(full_claim)], 30000)
+            fc = full_claim() if callable(full_claim) else full_claim  # built lazily: composing the terms can be expensive
+            if not isinstance(fc, z3.ExprRef):
+                return None
+            r0, mdl = rec._check(list(assume) + [z3.Not(fc)], 30000)
             if r0 == "sat":
                 alt = {k: v for k, v in model_assignment(mdl, S.symbols).items() if k in S.symbols}
                 r = one(alt)
